@@ -23,6 +23,7 @@ class Item:
 def families(args):
     g = gcheck.gather(args)
     results = g['results']
+    unknown_null = set(g.get('nullability_unknown') or [])
 
     def work(item):
         name = item.label
@@ -53,6 +54,10 @@ def families(args):
                     if key in seen:
                         continue
                     seen.add(key)
+                    callees = {ev[1] for ev in (p.get('log') or []) if len(ev) > 1}
+                    if callees & unknown_null:
+                        # the obligation may only fail because a callee's non-nullability analysis ran out of budget
+                        raise Inconclusive('production %s: tiling obligation depends on callees whose nullability analysis exhausted its budget: %s' % (name, sorted(callees & unknown_null)[:5]))
                     wit = gcheck.native_tiling_witness()
                     out['cex'].append({'kind': 'tiling', 'note': 'the node built by %s does not tile the consumed span: leaf intervals %s, production ends at %s (calls %s)' % (
                         name, p.get('v1_intervals'), p.get('p_out'), (p.get('log') or [])[-5:]), 'model': p['v1_bad'], 'status': 'reproduced',
@@ -71,7 +76,7 @@ def families(args):
     class W:
         def __init__(self, c):
             self.label, self.fn = 'wrapper/' + c.label, c.fn
-    wrappers = [W(c20.pp_case(False)), W(c20.pp_case(True))]
+    wrappers = [W(c20.pp_case(lib, k)) for lib in (False, True) for k in range(len(c20.SEG_LAYOUTS))]
     return [ppprop.Family('tiling-vc', items, None, ('tiling',), custom_work=work),
             ppprop.Family('text-handed-to-parser', wrappers, None, ('args', 'panic'), custom_work=lambda w: w.fn())]
 
